@@ -184,7 +184,9 @@ def ill_formed(names):
     return [["(", A, "+", B], [A, "+", B, ")"], ["(", "(", A, ")"], [("fn", "sin"), A], [("fn", "sin"), A, ",", B, ")"], [("fn", "pow"), A, ")"],
             [("fn", "logb"), A, ",", B, ",", C, ")"], [A, "*"], ["*", A], [A, "*", "/", B], [A, "<"], ["&&", A], [A, "||"], [A, B],
             [A, "+", "*", B], [A, "**"], ["/", A, "+", B], [A, "(", B, ")"], ["(", A, ")", B], [("fn", "sin"), ")"], [A, "==", "==", B],
-            [A, "-"], [A, "+", "-"], ["!"], [A, "&&", "!"]]
+            [A, "-"], [A, "+", "-"], ["!"], [A, "&&", "!"],
+            # a comparison operator without one of its operands
+            [A, "=="], ["==", A], [A, "!="], ["!=", A], ["(", A, "+", B, ")", "=="], [A, "<", B, "&&", C, "!="], [A, ">="], ["<=", A]]
 
 
 def read_doc_tables(path=None):
